@@ -2209,6 +2209,7 @@ fn circuit_eval_obs<F: VF, S: Stark<F, 2>>(ctx: &mut Ctx, name: &str, stark: &S)
 }
 
 pub fn family<F: VF>(ctx: &mut Ctx) {
+    e2e_recursive(ctx);
     let th = ctx.thorough();
     consumer_obs::<F>(ctx);
     lagrange_obs::<F>(ctx);
@@ -2239,4 +2240,151 @@ pub fn family<F: VF>(ctx: &mut Ctx) {
         row_semantics_obs::<F, _>(ctx, "fib", &fibs, 8, fib_trace::<F>, 5);
         row_semantics_obs::<F, _>(ctx, "cubic", &cub, 8, cubic_trace::<F>, 5);
     }
+}
+
+// ------------------------------------------------------------------------------------------
+// C11, end to end on concrete proofs: the recursive STARK verifier circuit is satisfiable exactly
+// when the native verifier accepts, for an honest proof and for single-element corruptions of it
+// (in-circuit challenger, Merkle verification, FRI and proof of work are exercised as checked
+// facts). Concrete structure and values: evaluated facts on the real prover / builder / verifiers.
+// ------------------------------------------------------------------------------------------
+
+const F_E2E_REC: &[&str] = &[
+    "starky/src/recursive_verifier.rs::verify_stark_proof_circuit",
+    "starky/src/recursive_verifier.rs::verify_stark_proof_with_challenges_circuit",
+    "starky/src/recursive_verifier.rs::add_virtual_stark_proof_with_pis",
+    "starky/src/recursive_verifier.rs::set_stark_proof_with_pis_target",
+    "starky/src/get_challenges.rs::StarkProofWithPublicInputsTarget::get_challenges",
+    "starky/src/vanishing_poly.rs::eval_vanishing_poly_circuit",
+    "starky/src/verifier.rs::verify_stark_proof",
+    "plonky2/src/fri/recursive_verifier.rs::CircuitBuilder::verify_fri_proof",
+];
+
+fn e2e_recursive_one<S>(ctx: &mut Ctx, sname: &str, stark: S, rows: Vec<Vec<plonky2_field::goldilocks_field::GoldilocksField>>, pis: Vec<plonky2_field::goldilocks_field::GoldilocksField>, cname: &str, config: StarkConfig)
+where
+    S: Stark<plonky2_field::goldilocks_field::GoldilocksField, 2> + Copy,
+{
+    use plonky2::plonk::config::PoseidonGoldilocksConfig as C;
+    use plonky2_field::goldilocks_field::GoldilocksField as G;
+    use starky::recursive_verifier::{add_virtual_stark_proof_with_pis, set_stark_proof_with_pis_target, verify_stark_proof_circuit};
+    type P = StarkProofWithPublicInputs<G, C, 2>;
+    let setup = std::panic::catch_unwind(std::panic::AssertUnwindSafe(|| {
+        let cols = rows[0].len();
+        let trace: Vec<PolynomialValues<G>> = (0..cols).map(|c| PolynomialValues::new(rows.iter().map(|r| r[c]).collect())).collect();
+        let proof = prove::<G, C, S, 2>(stark, &config, trace, &pis, None, &mut TimingTree::default()).expect("the real prover failed on a satisfying trace");
+        starky::verifier::verify_stark_proof(stark, proof.clone(), &config, None).expect("honest proof verifies");
+        let degree_bits = proof.proof.recover_degree_bits(&config);
+        let mut b = CircuitBuilder::<G, 2>::new(CircuitConfig::standard_recursion_config());
+        let pt = add_virtual_stark_proof_with_pis(&mut b, &stark, &config, degree_bits, 0, 0);
+        let zero = b.zero();
+        verify_stark_proof_circuit::<G, C, S, 2>(&mut b, stark, pt.clone(), &config, None);
+        let outer = b.build::<C>();
+        (proof, degree_bits, outer, pt, zero)
+    }));
+    let Ok((proof, degree_bits, outer, pt, zero)) = setup else {
+        ctx.guarded(&format!("C11.S.stark.e2e.{sname}.{cname}.setup"), F_E2E_REC, |_| panic!("proving the STARK or building the recursive verifier panicked"));
+        return;
+    };
+    let recursive_accepts = |p: &P| -> bool {
+        let r = std::panic::catch_unwind(std::panic::AssertUnwindSafe(|| {
+            let mut pw = PartialWitness::<G>::new();
+            set_stark_proof_with_pis_target(&mut pw, &pt, p, degree_bits, zero).ok()?;
+            let op = outer.prove(pw).ok()?;
+            outer.verify(op).ok()
+        }));
+        matches!(r, Ok(Some(())))
+    };
+    let native_accepts = |p: &P| -> bool { matches!(std::panic::catch_unwind(std::panic::AssertUnwindSafe(|| starky::verifier::verify_stark_proof(stark, p.clone(), &config, None))), Ok(Ok(()))) };
+    type M = Box<dyn Fn(&mut P)>;
+    let one = G::ONE;
+    let e1 = <G as Extendable<2>>::Extension::from_basefield_array([G::ZERO, G::ONE]);
+    let nq = proof.proof.opening_proof.query_round_proofs.len();
+    let nsteps = proof.proof.opening_proof.commit_phase_merkle_caps.len();
+    let noracles = proof.proof.opening_proof.query_round_proofs[0].initial_trees_proof.evals_proofs.len();
+    let mut muts: Vec<(String, M)> = vec![
+        ("honest".into(), Box::new(|_| {})),
+        ("openings.local_values[0]".into(), Box::new(move |p| p.proof.openings.local_values[0] += e1)),
+        ("openings.next_values[last]".into(), Box::new(move |p| *p.proof.openings.next_values.last_mut().unwrap() += e1)),
+        ("openings.quotient_polys[last]".into(), Box::new(move |p| *p.proof.openings.quotient_polys.as_mut().unwrap().last_mut().unwrap() += e1)),
+        ("trace_cap[last]".into(), Box::new(move |p| p.proof.trace_cap.0.last_mut().unwrap().elements[3] += one)),
+        ("quotient_polys_cap[0]".into(), Box::new(move |p| p.proof.quotient_polys_cap.as_mut().unwrap().0[0].elements[1] += one)),
+        ("fri.final_poly[last]".into(), Box::new(move |p| *p.proof.opening_proof.final_poly.coeffs.last_mut().unwrap() += e1)),
+        ("fri.pow_witness".into(), Box::new(move |p| p.proof.opening_proof.pow_witness += one)),
+    ];
+    if !proof.public_inputs.is_empty() {
+        muts.push(("public_inputs[last]".into(), Box::new(move |p| *p.public_inputs.last_mut().unwrap() += one)));
+        muts.push(("public_inputs[0]".into(), Box::new(move |p| p.public_inputs[0] += one)));
+    }
+    if proof.proof.openings.auxiliary_polys.is_some() {
+        muts.push(("openings.auxiliary_polys[0]".into(), Box::new(move |p| p.proof.openings.auxiliary_polys.as_mut().unwrap()[0] += e1)));
+        muts.push(("openings.auxiliary_polys_next[last]".into(), Box::new(move |p| *p.proof.openings.auxiliary_polys_next.as_mut().unwrap().last_mut().unwrap() += e1)));
+        muts.push(("auxiliary_polys_cap[last]".into(), Box::new(move |p| p.proof.auxiliary_polys_cap.as_mut().unwrap().0.last_mut().unwrap().elements[0] += one)));
+    }
+    for s in 0..nsteps {
+        muts.push((format!("fri.commit_cap[{s}][0]"), Box::new(move |p| p.proof.opening_proof.commit_phase_merkle_caps[s].0[0].elements[2] += one)));
+        let q = (s + 1) % nq;
+        muts.push((format!("fri.query[{q}].steps[{s}].evals[last]"), Box::new(move |p| *p.proof.opening_proof.query_round_proofs[q].steps[s].evals.last_mut().unwrap() += e1)));
+        let q2 = (s + 2) % nq;
+        muts.push((format!("fri.query[{q2}].steps[{s}].siblings[last]"), Box::new(move |p| {
+            if let Some(h) = p.proof.opening_proof.query_round_proofs[q2].steps[s].merkle_proof.siblings.last_mut() {
+                h.elements[2] += one;
+            } else {
+                p.proof.opening_proof.query_round_proofs[q2].steps[s].evals[0] += e1;
+            }
+        })));
+    }
+    for k in 0..noracles {
+        let q = (2 * k + 1) % nq;
+        muts.push((format!("fri.query[{q}].initial.evals[{k}][last]"), Box::new(move |p| *p.proof.opening_proof.query_round_proofs[q].initial_trees_proof.evals_proofs[k].0.last_mut().unwrap() += one)));
+        let q2 = (2 * k + 3) % nq;
+        muts.push((format!("fri.query[{q2}].initial.siblings[{k}][0]"), Box::new(move |p| p.proof.opening_proof.query_round_proofs[q2].initial_trees_proof.evals_proofs[k].1.siblings[0].elements[1] += one)));
+    }
+    for (name, m) in muts {
+        let id = format!("C11.S.stark.e2e.{sname}.{cname}.{name}");
+        ctx.guarded(&id.clone(), F_E2E_REC, |ctx| {
+            let mut p = proof.clone();
+            m(&mut p);
+            let nat = native_accepts(&p);
+            let rec = recursive_accepts(&p);
+            ctx.add(
+                Ob::new(id.clone(), F_E2E_REC, format!("STARK {sname} with {} rows under {cname} ({:?}), one accepted proof with `{name}` altered by one; outer circuit = verify_stark_proof_circuit under standard_recursion_config; concrete values", rows.len(), config.fri_config))
+                    .sample(format!("the recursive STARK verifier circuit is satisfiable (outer prove + verify succeed) exactly when verify_stark_proof accepts; native accepts: {nat}, recursive accepts: {rec}"))
+                    .goal(A::Bool(nat == rec))
+                    .goal(A::Bool(nat == (name == "honest")))
+                    .key(format!("stark-recursive-verifier:differs-from-native:{}", name.split('[').next().unwrap())),
+            );
+        });
+    }
+}
+
+pub fn e2e_recursive(ctx: &mut Ctx) {
+    use plonky2_field::goldilocks_field::GoldilocksField as G;
+    if ctx.is_witness_run() || !ctx.wants("C11.S.stark.e2e.") {
+        return;
+    }
+    let mut fast = StarkConfig::standard_fast_config();
+    fast.fri_config.num_query_rounds = 20;
+    let mut alt = StarkConfig::new(100, 3, FriConfig { rate_bits: 2, cap_height: 2, proof_of_work_bits: 12, reduction_strategy: FriReductionStrategy::Fixed(vec![2, 1]), num_query_rounds: 30 });
+    alt.fri_config.num_query_rounds = 30;
+    // Fibonacci (first-row / last-row / transition constraints, public inputs), 32 rows
+    let mut rows = vec![vec![G::from_canonical_u64(3), G::from_canonical_u64(5)]];
+    for j in 1..32 {
+        let p = rows[j - 1].clone();
+        rows.push(vec![p[1], p[0] + p[1]]);
+    }
+    let pis = vec![rows[0][0], rows[0][1], rows[31][1]];
+    e2e_recursive_one(ctx, "fib", Fib::<G, 2>(PhantomData), rows.clone(), pis.clone(), "fast", fast.clone());
+    e2e_recursive_one(ctx, "fib", Fib::<G, 2>(PhantomData), rows, pis, "rate2-cap2-arity21-3ch", alt.clone());
+    // lookup STARK (degree 3: one helper column per challenge, auxiliary oracle), 8 rows repeated to 32
+    let t: Vec<G> = (0..8).map(|j| G::from_canonical_u64(100 + 7 * j as u64)).collect();
+    let sigma = [1usize, 1, 3, 0, 5, 5, 7, 2];
+    let tau = [2usize, 0, 0, 3, 6, 4, 4, 1];
+    let fbits = [1u64, 0, 1, 0, 1, 1, 0, 0];
+    let mult = [2u64, 2, 2, 1, 1, 2, 1, 1];
+    let lrows: Vec<Vec<G>> = (0..8).map(|j| vec![t[sigma[j]], if fbits[j] == 1 { t[tau[j]] } else { G::from_canonical_u64(999 + j as u64) }, t[j], G::from_canonical_u64(mult[j]), G::from_canonical_u64(fbits[j])]).collect();
+    e2e_recursive_one(ctx, "lookup-deg3", LookupS::<G, 2> { deg: 3, next_table: false, _p: PhantomData }, lrows, vec![], "rate2-cap2-arity21-3ch", {
+        let mut c = alt.clone();
+        c.fri_config.reduction_strategy = FriReductionStrategy::Fixed(vec![1]);
+        c
+    });
 }
